@@ -208,6 +208,9 @@ func c01Property(t *rapid.T) {
 	drawExtras(t, c, &cfg)
 	draw789(t, c, &cfg)
 	s := newSim(t, c, cfg)
+	if rapid.IntRange(0, 2).Draw(t, "writer-sometimes-busy") == 0 {
+		s.busyWriter = func() bool { return rapid.IntRange(0, 2).Draw(t, "writer-busy") == 0 }
+	}
 	defer s.close()
 	mon := &c01mon{feat: map[string]bool{}, lastT: 1}
 	s.after = append(s.after, mon.after)
